@@ -62,6 +62,9 @@ def search(rep: C.Report, tier: str, broken):
             vmid = -r.uniform(0.2, 0.6)
             errs = {}
             info = {"model": kind, "T": T, "widths_Tn": (W * Tn).tolist(), "offsets": off.tolist(), "velocityMid": vmid}
+            thick = float(np.max(W)) * r.uniform(0.8, 1.5)
+            tin, tout = (thick * r.uniform(4, 7), thick * r.uniform(1.3, 2.2))[::r.choice((1, -1))]
+            centre = r.uniform(-0.5, 0.5) * thick
             for M in Ms:
                 o = objs[M]
                 eom, grid = o["eom"], o["grid"]
@@ -84,8 +87,15 @@ def search(rep: C.Report, tier: str, broken):
                 p, wp2, _, _ = eom._intermediatePressureResults(WallParams(widths=W.copy(), offsets=off.copy()), lowv, highv, 0.0, 0.0, vmid, br, T, T,
                                                                temperatureProfileInput=Tprof, velocityProfileInput=np.full(grid.M - 1, vmid),
                                                                multiplier=1.0)
-                errs[M] = (abs(p2 - want) / sc, abs(p - want) / sc)
                 info[f"M={M}"] = {"pressure_given_shape": p2, "pressure_after_minimisation": float(p), "V_low_minus_V_high": want}
+                # (c) a user-chosen grid with UNEQUAL tails (what _updateGrid produces with out-of-equilibrium particles): the code path
+                # does not rebuild the grid, so the pressure integral must be right on it as well
+                grid.changePositionFalloffScale(tin, tout, thick, centre)
+                p3, _, _, _ = eom._intermediatePressureResults(WallParams(widths=W.copy(), offsets=off.copy()), lowv, highv, 0.0, 0.0, vmid, br, T, T,
+                                                              temperatureProfileInput=Tprof, velocityProfileInput=np.full(grid.M - 1, vmid),
+                                                              multiplier=1.0)
+                info[f"M={M}"]["unequal_tails"] = {"tailInside": tin, "tailOutside": tout, "thickness": thick, "pressure": float(p3)}
+                errs[M] = (abs(p2 - want) / sc, abs(p - want) / sc, abs(p3 - want) / sc)
                 rep.case(key=(kind, M, round(T, 3), round(float(W[0] * Tn), 1)), sample=dict(info) if len(rep.samples) < 3 and M == Ms[-1] else None)
                 rep.count(f"pressure {kind} M={M}")
             e_first, e_last = max(errs[Ms[0]]), max(errs[Ms[-1]])
